@@ -194,6 +194,10 @@ func inverse(s [][]byte) error {
 
 // drop n packets from the slice starting from offset.
 func drop(s [][]byte, offset, n int) [][]byte {
+	if offset < 0 || offset >= len(s) || n <= 0 {
+		// nothing to drop
+		return s
+	}
 	if offset+n > len(s) {
 		n = len(s) - offset
 	}
